@@ -19,10 +19,11 @@ use nitrogql_config_file::Config;
 use tasks::Tasks;
 
 const FILES: [(&str, &str); 4] = [
-    ("/p/a.graphql", "#import F1 from \"./f1.graphql\"\nquery A { x ...F1 }\n"),
+    ("/p/a.graphql", "#import F1 from \"./frags/f1.graphql\"\nquery A { x ...F1 }\n"),
     ("/p/b.graphql", "query B { y }\n"),
-    ("/p/f1.graphql", "#import F2 from \"./sub/f2.graphql\"\nfragment F1 on Q { a ...F2 }\n"),
-    ("/p/sub/f2.graphql", "fragment F2 on Q { b }\n"),
+    // the importing file sits in another directory than the root and imports relative to itself
+    ("/p/frags/f1.graphql", "#import F2 from \"./f2.graphql\"\nfragment F1 on Q { a ...F2 }\n"),
+    ("/p/frags/f2.graphql", "fragment F2 on Q { b }\n"),
 ];
 fn source_of(f: &str) -> &'static str {
     FILES.iter().find(|(n, _)| *n == f).unwrap().1
@@ -30,8 +31,8 @@ fn source_of(f: &str) -> &'static str {
 /// import targets of a file (resolved), from the fixed family above
 fn imports_of(f: &str) -> Vec<&'static str> {
     match f {
-        "/p/a.graphql" => vec!["/p/f1.graphql"],
-        "/p/f1.graphql" => vec!["/p/sub/f2.graphql"],
+        "/p/a.graphql" => vec!["/p/frags/f1.graphql"],
+        "/p/frags/f1.graphql" => vec!["/p/frags/f2.graphql"],
         _ => vec![],
     }
 }
@@ -48,8 +49,8 @@ fn alphabet() -> Vec<Op> {
     let mut v = vec![Op::Initiate("/p/a.graphql"), Op::Initiate("/p/b.graphql")];
     for t in 1..=3 {
         v.push(Op::Required(t));
-        v.push(Op::Load(t, "/p/f1.graphql"));
-        v.push(Op::Load(t, "/p/sub/f2.graphql"));
+        v.push(Op::Load(t, "/p/frags/f1.graphql"));
+        v.push(Op::Load(t, "/p/frags/f2.graphql"));
         v.push(Op::Load(t, "/p/a.graphql"));
         v.push(Op::Emit(t));
         v.push(Op::Free(t));
@@ -183,9 +184,9 @@ fn main() {
         use Op::*;
         let hs: Vec<Vec<Op>> = vec![
             vec![Initiate("/p/b.graphql"), Emit(1), Free(1)],
-            vec![Initiate("/p/a.graphql"), Required(1), Load(1, "/p/f1.graphql"), Required(1), Load(1, "/p/sub/f2.graphql"), Emit(1), Free(1)],
-            vec![Initiate("/p/a.graphql"), Load(1, "/p/a.graphql"), Load(1, "/p/f1.graphql"), Load(1, "/p/f1.graphql"), Free(1), Free(1), Emit(1)],
-            vec![Initiate("/p/a.graphql"), Initiate("/p/b.graphql"), Free(1), Emit(2), Load(1, "/p/f1.graphql"), Required(3)],
+            vec![Initiate("/p/a.graphql"), Required(1), Load(1, "/p/frags/f1.graphql"), Required(1), Load(1, "/p/frags/f2.graphql"), Emit(1), Free(1)],
+            vec![Initiate("/p/a.graphql"), Load(1, "/p/a.graphql"), Load(1, "/p/frags/f1.graphql"), Load(1, "/p/frags/f1.graphql"), Free(1), Free(1), Emit(1)],
+            vec![Initiate("/p/a.graphql"), Initiate("/p/b.graphql"), Free(1), Emit(2), Load(1, "/p/frags/f1.graphql"), Required(3)],
             vec![Initiate("/p/b.graphql"), Initiate("/p/a.graphql")],
         ];
         for slack in [false, true] {
